@@ -3,14 +3,15 @@ CONSTANTS
   Full = FALSE
   DEV_SmallAngleLinearised = FALSE
   DEV_EnvironmentNotMoved = FALSE
-INVARIANT TypeOK
-INVARIANT LawDist
-INVARIANT LawArea
-INVARIANT LawUnit
-INVARIANT LawInv
-INVARIANT LawInvValid
-INVARIANT LawUndoTwo
-INVARIANT LawUndoOne
-INVARIANT LawUnion
-INVARIANT LawIdentity
-INVARIANT LawImplConforms
+INVARIANT G_TypeOK
+INVARIANT G_LawDist
+INVARIANT G_LawArea
+INVARIANT G_LawUnit
+INVARIANT G_LawInv
+INVARIANT G_LawInvValid
+INVARIANT G_LawUndoTwo
+INVARIANT G_LawUndoOne
+INVARIANT G_LawUnion
+INVARIANT G_LawIdentity
+INVARIANT G_LawImplConforms
+INVARIANT G_LawVel
